@@ -194,16 +194,23 @@ class Engine:
             st.regions.append(Region(st.sp + offs[ss], st.sp + ends[ss], 'slot:%s:%s' % (fname, ss), 'slot', owner=act.fid))
         st.stack.append(act)
 
+    def inside_formula(self, st, addr, n):
+        """z3 Bool (or python bool for concrete addresses): [addr, addr+n) lies inside one non-guard region"""
+        c = const_of(addr)
+        if c is not None:
+            return any(r.lo <= c and c + n <= r.hi for r in st.regions if r.kind != 'guard')
+        return z3.Or(*[z3.And(z3.UGE(addr, r.lo), z3.ULE(addr + n, r.hi), z3.ULE(addr, addr + n)) for r in st.regions if r.kind != 'guard'])
+
     def load(self, st, addr, n, act=None, ins=None):
         addr = simp(addr)
         if self.track_loads:
-            st.loads.append((addr, n, act.f.name if act else None, ins))
+            st.loads.append((addr, n, act.f.name if act else None, ins, self.inside_formula(st, addr, n)))
         bs = [z3.Select(st.mem, addr + i) for i in range(n)]
         return simp(z3.Concat(*reversed(bs))) if n > 1 else simp(bs[0])
 
     def store(self, st, addr, val, n, act=None, ins=None):
         addr = simp(addr)
-        st.stores.append((addr, n, act.f.name if act else None, ins))
+        st.stores.append((addr, n, act.f.name if act else None, ins, self.inside_formula(st, addr, n) if self.track_loads else None))
         self.check_addr(st, addr, n, act, ins)
         m = st.mem
         for i in range(n):
@@ -586,10 +593,10 @@ class Engine:
             else:
                 src = simp(args[1])
                 data = [simp(z3.Select(st.mem, src + k)) for k in range(n)]
-                if self.track_loads:
-                    st.loads.append((src, n, act.f.name, name))
+                if self.track_loads and n:
+                    st.loads.append((src, n, act.f.name, name, self.inside_formula(st, src, n)))
             if n:
-                st.stores.append((dst, n, act.f.name, name))
+                st.stores.append((dst, n, act.f.name, name, self.inside_formula(st, dst, n) if self.track_loads else None))
                 self.check_addr(st, dst, n, act, name)
             m = st.mem
             for k in range(n):
